@@ -81,6 +81,10 @@ def run(v):
     ecov = run_cmdline_property(v, efam, None, replay_cfg="MC_GroupLine_replay.cfg", module="MC_GroupLine",
                                 signature=cmdline_sig.alt_env_sig, trace_module="GroupLineTrace", name="C06e")
     cov = merge_cov(cov, ecov, "alt_env")
+    # the documented exception: `catch` turns an invalid value into absence (a typed one is then left over)
+    cfam = D.catch_family(SEED + 65, 12 if q else 48, maxlen=2 if q else 3, budget=1500 if q else 12000)
+    ccov = run_cmdline_property(v, cfam, None, signature=cmdline_sig.signature, name="C06c")
+    cov = merge_cov(cov, ccov, "catch")
     cov["rule"] = ("valued arguments (u32 conversion, guard) under one/opt/many/some/fallback/fallback_with/last at top level, "
                    "with positionals, inside subcommands; all lines up to maxlen over values {valid, guard-failing, unconvertible}; "
                    "message text required to carry the conversion/guard text when the repaired line is accepted")
